@@ -117,6 +117,7 @@ def check_parse(ctx, parser, cfg, seam, text, exp_rep, exp_f, exp_time, exp_zone
                 dump_expected=None, accept=True):
     """exp_time: (form, h, m, s) with Fractions for decimal units / None for absent lower units."""
     ctx.transitions += 1
+    impl._H.ticks = 0
     try:
         with impl.system_zone(seam):
             p = parser.parse(text)
@@ -542,6 +543,7 @@ def run_truncated(ctx, part):
 
 def check_truncated(ctx, parser, text, want, zone, case, sig):
     ctx.transitions += 1
+    impl._H.ticks = 0
     try:
         p = parser.parse(text)
     except ValueError as ex:
